@@ -26,6 +26,7 @@ PATTERNS = {
     "time:h:mm tt": lambda: LocalTimePattern.create_with_invariant_culture("h:mm tt"),
     "date:iso": lambda: LocalDatePattern.iso,
     "date:d/M/yy": lambda: LocalDatePattern.create_with_invariant_culture("d/M/yy"),
+    "date:uuuu-MM": lambda: LocalDatePattern.create_with_invariant_culture("uuuu-MM"),      # a year pattern that takes the general (non-optimised) path
     "duration:roundtrip": lambda: DurationPattern.roundtrip,
     "duration:H:mm": lambda: DurationPattern.create_with_invariant_culture("-H:mm"),
     "datetime:iso": lambda: LocalDateTimePattern.extended_iso,
@@ -40,7 +41,10 @@ def _valid(v):
     if isinstance(v, Duration):
         return Duration._MIN_DAYS <= v._floor_days <= Duration._MAX_DAYS and 0 <= v._nanosecond_of_floor_day < 86400 * 10 ** 9
     if isinstance(v, LocalDate):
-        return 1 <= v.month <= 12 and 1 <= v.day <= 31 and -9998 <= v.year <= 9999
+        cal = v.calendar
+        if not cal.min_year <= v.year <= cal.max_year:
+            return False
+        return 1 <= v.month <= cal.get_months_in_year(v.year) and 1 <= v.day <= cal.get_days_in_month(v.year, v.month)
     if isinstance(v, LocalDateTime):
         return 1 <= v.month <= 12 and 1 <= v.day <= 31 and 0 <= v.nanosecond_of_day < 86400 * 10 ** 9
     return v is not None
@@ -57,7 +61,7 @@ def _outcome_ok(r):
 # fully symbolic text lengths per pattern: the length of the longest ordinary text of the pattern plus one (the ISO date-time, 19+ characters,
 # stops at 10 - its longer texts are parse_numeric_skeleton's)
 TEXT_LEN = {"offset:g": 10, "offset:G": 10, "offset:+HH:mm": 7, "offset:-H:mm:ss": 9, "time:iso": 12, "time:HH:mm": 6, "time:h:mm tt": 8,
-            "date:iso": 11, "date:d/M/yy": 9, "duration:roundtrip": 12, "duration:H:mm": 8, "datetime:iso": 10}
+            "date:iso": 11, "date:d/M/yy": 9, "date:uuuu-MM": 9, "duration:roundtrip": 12, "duration:H:mm": 8, "datetime:iso": 10}
 
 
 @lemma({"s": str}, params=lambda tier, seed: [[k, TEXT_LEN[k] if tier == "quick" else TEXT_LEN[k] + 1] for k in PATTERNS], budget=400, thorough_budget=900,
@@ -131,6 +135,17 @@ def _num_text(kind):
                 assume(0 <= v <= 99)
             return _outcome_ok(pat.parse(("-" if neg else "") + f"{y:04}-{m:02}-{d:02}"))
         return h, {"neg": bool, "y": int, "m": int, "d": int}
+    if kind == "date:MM-dd c":
+        from pyoda_time import CalendarSystem
+        pat = LocalDatePattern.create_with_invariant_culture("MM-dd c")
+        ids = list(CalendarSystem.ids)
+
+        def h(a, m, d):
+            assume(0 <= a < len(ids))
+            for v in (m, d):
+                assume(0 <= v <= 99)
+            return _outcome_ok(pat.parse(f"{m:02}-{d:02} " + ids[int(a)]))
+        return h, {"a": int, "m": int, "d": int}
     if kind == "datetime:iso":
         pat = LocalDateTimePattern.extended_iso
 
@@ -147,12 +162,12 @@ def _num_params(tier, seed):
     if tier == "thorough":
         return NUM_KINDS
     # quick: every kind; of the duration day-count partitions the shortest and the longest (all ten in thorough)
-    return [k for k in NUM_KINDS if k[0] in ("offset:+HH:mm:ss", "offset:+HH:mm", "time:HH:mm:ss", "date:iso", "datetime:iso", "duration:fraction")
+    return [k for k in NUM_KINDS if k[0] in ("offset:+HH:mm:ss", "offset:+HH:mm", "time:HH:mm:ss", "date:iso", "datetime:iso", "duration:fraction", "date:MM-dd c")
             or (k[0] == "duration:roundtrip" and k[1] in (1, 10))]
 
 
 NUM_KINDS = ([["duration:roundtrip", k] for k in range(1, 11)] + [["duration:fraction", 0]] + [["offset:+HH:mm:ss", 0], ["offset:+HH:mm", 0], ["time:HH:mm:ss", 0]]
-             + [["date:iso", k] for k in (4, 5)] + [["datetime:iso", k] for k in (0, 1, 2, 3)])
+             + [["date:iso", k] for k in (4, 5)] + [["datetime:iso", k] for k in (0, 1, 2, 3)] + [["date:MM-dd c", 0]])
 _NUM_ARGS = {"neg": bool, "a": int, "b": int, "c": int, "d": int, "f": int, "y": int, "m": int, "hh": int, "mi": int, "ss": int}
 
 
